@@ -2078,6 +2078,12 @@ def _tee(vm, cal, args):
     return (Iter('list', items=xs, pos=0), Iter('list', items=xs, pos=0))
 
 
+@reg(('*', 'Fn', 'call'), ('*', 'FnMut', 'call_mut'), ('*', 'FnOnce', 'call_once'))
+def _fn_call(vm, cal, args):
+    f, packed = args[0], args[1]
+    return vm.call_value(f, list(packed) if isinstance(packed, tuple) else [packed])
+
+
 # ---- wide / ultraviolet f32x8: lanes are opaque here (packing and arithmetic are decided by engine K, C16)
 @reg(('f32x8', None, 'as_array_ref'))
 def _f32x8_as_array_ref(vm, cal, args):
